@@ -185,8 +185,13 @@ void h_rgx_emit(void)
 {
   LOAD_INPUTS();
   BEGIN_TASK();
+  /* the block the writer waits for may or may not be the one at the head of the emit queue */
+  { struct head_blk hb; hb.base = pos_of(IN.pos_word[3] % 5u, 0); hb.hdr.crc = 1; hb.hdr.bs100k = 9; if (IN.n_order & 1) push(order_q, hb); }
   ASSUME(can_emit());
   WITNESS("emit_enabled");
+  if (out_slots <= 2) WITNESS("emit_on_reserved_slot");
+  /* reservation that keeps the pipeline live: the last two output slots go only to the block the writer waits for */
+  PROP(out_slots > 2 || (!empty(order_q) && pos_eq(peek(emit_q)->base, dq_get(order_q, 0).base)), "the last two output slots are used only for the block at the head of the output order (C11)");
   if (IN.rv[2] % 3u == 1) WITNESS("emit_needs_another_buffer");
   gE++;                                   /* ghost: this task takes one slot and the job's work unit out of the queues */
   do_emit();
@@ -273,6 +278,8 @@ void h_rgx_scan(void)
   enqueue(scan_q, t);
   ASSUME(can_scan());
   WITNESS("scan_enabled");
+  /* reservation: speculative scanning never takes the last free work unit while the parser may need it */
+  PROP(work_units > 1 || !parse_token, "the last free work unit is not given to the scanner while the parser is idle (C11)");
   if (IN.rv[0] & 1) WITNESS("candidate_reported");
   /* room for a new record is what the unord_q bound provides (not part of this invariant) */
   ASSUME(size(unord_q) == 0);
